@@ -122,6 +122,12 @@ def run(ctx):
                         continue
                     root, steps = access_path(P, f, s.ops[1])
                     rd = f.defs.get(root) if isinstance(root, str) else None
+                    if rd is not None and rd.op in ('phi', 'select'):
+                        # filled through a walking pointer (`*cur++ = x`): the object the pointer walks
+                        from ..poly import PolyCtx as _PC19c
+                        pr_ = _PC19c(P, f, C).ptr(s.ops[1])[0]
+                        cands_ = [x_ for x_ in f.insts() if x_.op == 'call' and x_.callee == '@malloc' and x_.res and C.val(x_.res) == pr_]
+                        rd = cands_[0] if cands_ else rd
                     if rd is None or rd.op != 'call' or rd.callee != '@malloc':
                         continue
                     F = Facts(P, f, s.bb)
@@ -156,6 +162,37 @@ def run(ctx):
         asc = ivd is not None and ivd.op == 'phi' and any(v == '0' for v, _ in ivd.incoming) and \
             any((f.defs.get(v) is not None and f.defs[v].op == 'add' and '1' in f.defs[v].ops) for v, _ in ivd.incoming)
         cap = any((p in ('slt', 'ne') and re.match(r'^phi', a) and (b_ in ('arg0',) or re.search(r'\.k$', b_))) for p, a, b_ in F.facts)
+        if not cap:
+            # the cap as a guard of the loop on the cursor the store goes through (an index or a walking pointer compared with its end)
+            from ..poly import PolyCtx as _PC19c2
+            from ..loops import loops_of as _lo19c, innermost as _in19c
+            pc_ = _PC19c2(P, f, C)
+            Ls_ = _in19c(_lo19c(P, f, pc_), s.bb)
+            if Ls_ is not None:
+                off_ = Ls_.pc.ptr(s.ops[1])[1]
+                from ..guards import NEG as _NEG19
+                for raw_, tr_ in F.raw:
+                    if raw_.op != 'icmp':
+                        continue
+                    pd_ = raw_.pred if tr_ else _NEG19[raw_.pred]
+                    if (raw_.ty or '').endswith('*'):
+                        (r1_, o1_), (r2_, o2_) = Ls_.pc.ptr(raw_.ops[0]), Ls_.pc.ptr(raw_.ops[1])
+                        if r1_ != r2_:
+                            continue
+                    else:
+                        o1_, o2_ = Ls_.pc.val(raw_.ops[0]), Ls_.pc.val(raw_.ops[1])
+                    for lo_, hi_, p2_ in ((o1_, o2_, pd_), (o2_, o1_, {'ult': 'ugt', 'slt': 'sgt', 'ugt': 'ult', 'sgt': 'slt'}.get(pd_, pd_))):
+                        cur_ = [a_ for a_ in lo_.atoms() if a_ in off_.atoms() and a_.startswith('%')]
+                        if p2_ in ('ne', 'ult', 'slt') and len(cur_) == 1 and len(lo_) == 1 and len(hi_) == 1:
+                            c_ = lo_[(cur_[0],)] if (cur_[0],) in lo_ else None
+                            ka_ = list(hi_)[0]
+                            if c_ and len(ka_) == 1 and hi_[ka_] == c_ and (ka_[0] == 'arg0' or re.search(r'\.k$', ka_[0])):
+                                cap = True
+                for gd_ in Ls_.guards():
+                    ats_ = list(gd_.bound.atoms())
+                    if gd_.iv in off_.atoms() and gd_.pred in ('slt', 'ult', 'ne') and len(ats_) == 1 and gd_.bound == Poly.atom(ats_[0]) and \
+                       (ats_[0] == 'arg0' or re.search(r'\.k$', ats_[0])):
+                        cap = True
         sel.append((fname, take_clear, asc, cap))
         if take_clear and asc and cap:
             r.ok(inst + ': takes i iff bit i clear, ascending from 0, capped at k', func=f.name, loc=s.loc)
@@ -311,6 +348,28 @@ def run(ctx):
                 continue
             if any(cf * st == kb for kb in hb) and (p_, i0, st) not in walking:
                 walking.append((p_, i0, st))
+        # the cursor may carry the row start with it (`avail = out_off; ... row[avail++] ^= c`): it then starts where the row
+        # combination of the other branch puts its destination row, and advances by one
+        if not walking:
+            row_starts = []
+            for xs_ in xor_stores:
+                if xs_.bb not in L0.body or not any(from_call(o) for o in g.defs[strip_int_casts(g, xs_.ops[0])].ops):
+                    continue
+                Lx_ = innermost(LSg, xs_.bb)
+                rt_, of_ = (Lx_.pc if Lx_ is not None else pcg).ptr(xs_.ops[1])
+                if Lx_ is not None and Lx_ is not L0:
+                    pit_ = Lx_.ptr_at_iteration(rt_, of_)
+                    if pit_ is not None:
+                        from ..loops import T as _T19
+                        rt_, of_ = pit_[0], pit_[1].subst(_T19, Poly())
+                row_starts.append((rt_, of_))
+            for p_, i0, st in cands:
+                if st is None or i0 is None or st != Poly.const(1):
+                    continue
+                i0p = i0[1] if isinstance(i0, tuple) else i0
+                cf, rest_ = off.coeff_of(p_.res)
+                if cf == Poly.const(1) and rest_ is not None and rest_.is_zero() and L0.invariant(i0p) and any(rt_ == root and of_ == i0p for rt_, of_ in row_starts):
+                    walking.append((p_, i0, st))
         # the column index j itself (bounded by k in the header) is not a cursor of its own branch
         hg = {gd.iv for gd in L0.guards() if gd.block is L0.header}
         own = [w for w in walking if w[0].res not in hg]
